@@ -69,7 +69,7 @@ func u64key(id uint64) string    { return fmt.Sprintf("%020d", id) }
 func pairKey(a, b uint64) string { return fmt.Sprintf("%020d/%020d", a, b) }
 
 func (m *monC18) storeWorld(w *World) {
-	n := &Node{Idx: 200, Cfg: DefaultRefCfg(), DB: dbm.NewMemDB()}
+	n := &Node{Idx: 200, Cfg: DefaultRefCfg(), DB: newLeakDB(dbm.NewMemDB())}
 	n.Open()
 	n.App.InitChain(InitChainReq(w.AppState))
 	hdr := MakeHeader(1, time.Unix(GenesisTS+1, 0).UTC(), nil)
@@ -384,6 +384,7 @@ func (m *monC18) storeWorld(w *World) {
 	}
 	// commit and re-open: what is compared now is the durable store
 	n.App.EndBlock(abci.RequestEndBlock{Height: 1})
+	n.releaseDangling()
 	n.App.Commit()
 	n.Open()
 	ctx2 := n.App.BaseApp.NewUncachedContext(false, hdr)
